@@ -205,9 +205,9 @@ func runC04(e *sim.Env) {
 func init() {
 	register(&Prop{
 		ID: "C04", Run: runC04, Quick: 900, Thorough: 25000, Level: "exploration",
-		Rule: "one run = C02-style history with 1-6 subscribers that start from nothing or from a snapshot of any index a subscriber reached before (including indices on branches that are stale by now), poll UpdatesSince with chunk sizes 1-8 at drawn moments between submissions and fold the returned diffs and proof updates into a shadow ledger; every poll is checked for the chunk bound and for contiguity (reverts walk back block by block off the best chain, applies walk forward on it); whenever a subscriber has caught up its shadow ledger must equal the reference ledger (elements, leaf indices, proofs, chain index elements) and verify against the accumulator; two OnReorg listeners (one calling back into the manager, one cancelled at a drawn moment) must be called exactly when the tip changed; distinct = abstract trace; non-trivial = a reorg that reverts blocks",
-		Real: []string{"chain.Manager (UpdatesSince, OnReorg)", "chain.DBStore"},
-		Stub: []string{"disk: simdisk.DB"},
+		Rule:        "one run = C02-style history with 1-6 subscribers that start from nothing or from a snapshot of any index a subscriber reached before (including indices on branches that are stale by now), poll UpdatesSince with chunk sizes 1-8 at drawn moments between submissions and fold the returned diffs and proof updates into a shadow ledger; every poll is checked for the chunk bound and for contiguity (reverts walk back block by block off the best chain, applies walk forward on it); whenever a subscriber has caught up its shadow ledger must equal the reference ledger (elements, leaf indices, proofs, chain index elements) and verify against the accumulator; two OnReorg listeners (one calling back into the manager, one cancelled at a drawn moment) must be called exactly when the tip changed; distinct = abstract trace; non-trivial = a reorg that reverts blocks",
+		Real:        []string{"chain.Manager (UpdatesSince, OnReorg)", "chain.DBStore"},
+		Stub:        []string{"disk: simdisk.DB"},
 		Assumptions: []string{"sequential interleaving of polls and submissions in this check; the concurrent half is covered by the lock-level schedule check of the same property when the instrumented flavour is available"},
 	})
 }
